@@ -169,11 +169,17 @@ pub fn generate(profile: &str, seed: u64, n: usize, size: usize) -> Vec<History>
         }
         "fankey" => {
             for _ in 0..n {
-                let h = crate::big::gen_fan_key(&mut rng);
-                let mut l = h.clone();
-                l.coll = Coll::KeyList;
-                out.push(l);
-                out.push(h);
+                let from = out.len();
+                crate::big::gen_fan_key(&mut rng, &mut out);
+                let lists: Vec<History> = out[from..]
+                    .iter()
+                    .map(|h| {
+                        let mut l = h.clone();
+                        l.coll = Coll::KeyList;
+                        l
+                    })
+                    .collect();
+                out.extend(lists);
             }
         }
         "bigseg" => {
@@ -184,6 +190,16 @@ pub fn generate(profile: &str, seed: u64, n: usize, size: usize) -> Vec<History>
         "bigtwin" => {
             for i in 0..n {
                 crate::big::gen_big_twins(&mut rng, size, seed + i as u64, &mut out);
+            }
+        }
+        "fanseg" => {
+            for _ in 0..n {
+                crate::big::gen_fan_seg(&mut rng, &mut out);
+            }
+        }
+        "faninject" => {
+            for i in 0..n {
+                crate::big::gen_fan_inject(&mut rng, seed + i as u64, &mut out);
             }
         }
         "biginject" => {
